@@ -778,6 +778,8 @@ def names_as_codes(fn, helpers, depth=0):
         return ast.BinOp(left=a, op=ast.Add(), right=ast.Constant(value=b))
 
     def value(e):
+        if isinstance(e, ast.IfExp):
+            return ast.IfExp(test=e.test, body=value(e.body), orelse=value(e.orelse))
         if isinstance(e, ast.Constant) and isinstance(e.value, str):
             if e.value in _SUFFIX_CODE:
                 return ast.Constant(value=_SUF + _SUFFIX_CODE[e.value])
